@@ -33,7 +33,7 @@ ASSUMPTIONS = [
     "the C generator's subset is used for the C path: flat structs for the positive scans",
 ]
 SIZES = list(range(57, 73)) + [80, 96, 127, 128, 129, 200]
-PLACEMENTS = ["first", "middle", "last", "nested", "array", "enum", "one-bit-elements", "underscore-tail"]
+PLACEMENTS = ["first", "middle", "last", "nested", "array", "enum", "one-bit-elements", "underscore-tail", "array-of-structs"]
 VARKINDS = ["str", "dyn", "opt", "dyn-in-nested", "opt-in-array", "str-in-nested"]
 
 
@@ -97,6 +97,27 @@ def sized_struct(r, name, total, placement):
             # (beyond 64 bits the sibling is sometimes NAMED like an unrolled element of the array)
             fields.append((("arr_1" if total > 64 and len(fields) == 1 and r.random() < 0.4 else "r%d" % len(fields)), 10 + len(fields), ("u", x)))
             rest -= x
+    elif placement == "array-of-structs":
+        # an array of structs (two or more elements) FOLLOWED by further fields, and a nested struct that holds such
+        # an array followed by a field of its own
+        n = r.choice([2, 2, 3, 4])
+        ew = max(2, min(30, (total - 2) // (n + 1)))
+        a = r.randint(1, ew - 1)
+        decls.append(shapes.mk_struct(name + "El", [("p", 0, ("u", a)), ("q", 1, ("i", ew - a))]))
+        rest = total - n * ew
+        if r.random() < 0.5 and rest >= 2:
+            inner_tail = r.randint(1, min(rest - 1, 16))
+            decls.append(shapes.mk_struct(name + "Hold", [("els", 0, ("arr", ("struct", name + "El"), n)), ("after", 1, ("u", inner_tail))]))
+            fields = [("h", 0, ("struct", name + "Hold"))]
+            rest -= inner_tail
+        else:
+            fields = [("els", 0, ("arr", ("struct", name + "El"), n))]
+        i = 0
+        while rest > 0:
+            x = min(rest, r.randint(1, 64))
+            fields.append(("t%d" % i, 5 + i, (r.choice(["u", "i"]), x)))
+            rest -= x
+            i += 1
     elif placement == "one-bit-elements":
         # ONE array of `total` elements of a one-bit type (u1, i1, an enum with one or two enumerators), flat or
         # as rows: however many elements, each is one bit of the message
